@@ -24,6 +24,9 @@ TrBridge ==
     /\ Chk("C11", "response_reaches_the_caller_intact", l,
            E.verdict = "ok" => E.out = E.in)           \* sub-messages (order, id, payload, gas, trigger, message), attributes, events, data
     /\ Chk("C11", "no_partial_response_on_failure", l, E.verdict # "ok" => Len(E.out.msgs) = 0)
+    \* C08: what a generated builder stamped on a sub-message (id, trigger, payload, gas limit) is still on it when the response of a
+    \* bridged handler leaves the contract -- otherwise builder and reply dispatch no longer agree
+    /\ Chk("C08", "a_sub_message_keeps_id_trigger_payload_and_gas_limit_on_its_way_out", l, E.verdict = "ok" => E.out.msgs = E.in.msgs)
     \* C02, on the dispatch of a contract with chain-custom types: the caller gets the handler's response untouched, the handler the caller's context
     /\ Chk("C02", "caller_gets_the_handlers_own_response_untouched", l, (E.via # "direct" /\ E.verdict = "ok") => E.out = E.in)
     /\ Chk("C02", "handler_ran_exactly_once_with_the_callers_context", l,
